@@ -316,8 +316,40 @@ def gen_entry_case(rng, pool, hashes):
                  "vm_size": False}
 
 
+CORPUS = os.path.join(common.VERIF, "corpus", "C17")
+
+
+def parse_op(line):
+    t = line.split()
+    k = t[0]
+    if k == "C":
+        return ("C", int(t[1]), int(t[2]))
+    if k in ("A", "G", "a"):
+        return (k, unhx(t[1]), int(t[2]))
+    if k in ("L", "l", "H"):
+        return (k, unhx(t[1]))
+    if k in ("E", "r"):
+        return (k, int(t[1]))
+    return (k,)
+
+
+def load_corpus(vm_size):
+    """corpus/C17/dlcache_*.txt: driver input files kept as regression cases (always run first)"""
+    out = []
+    try:
+        names = sorted(f for f in os.listdir(CORPUS) if f.startswith("dlcache") and f.endswith(".txt"))
+    except OSError:
+        names = []
+    for f in names:
+        ops = [parse_op(l) for l in open(os.path.join(CORPUS, f)).read().splitlines() if l.strip()]
+        if ops and ops[0][0] in ("C", "E"):
+            out.append((ops, {"level": "cache" if ops[0][0] == "C" else "entry", "size0": ops[0][1], "resizes_wanted": 1,
+                              "mode": "corpus", "style": "corpus:" + f, "vm_size": ops[0][0] == "C" and ops[0][1] == vm_size}))
+    return out
+
+
 def gen_cases(rng, tier, pool, hashes, vm_size):
-    cases = []
+    cases = load_corpus(vm_size)
     n_rand = 260 if tier == "quick" else 2600
     sizes = list(range(1, 17))
     # every initial size 1..16 with every number of growths 0..3, get_handle style
@@ -634,7 +666,7 @@ def run_dlcache(ctx, lib=None, cases=None):
                                 "last_table": oc[-2][:300] if len(oc) > 1 else ""})
     for key, fl in sorted(failures.items()):
         # report the failing sequence that starts from the VM's own cache size if there is one
-        fl.sort(key=lambda f: (not f[1].get("vm_size"), len(f[0])))
+        fl.sort(key=lambda f: (not f[1].get("vm_size"), f[1].get("style") != "plain", f[1].get("mode") != "realistic", len(f[0])))
         ops, meta, v, detail, err = fl[0]
         small, runs = shrink_case(drv, workdir, ops, v[0], re.sub(r"[^a-z0-9]", "_", key))
         okk, v2 = case_fails_same(drv, workdir, small, v[0], "final")
